@@ -235,4 +235,25 @@ def injectBatchEvents : List InjectEventRequest → List Event
 /-- `"fields"` object of an output event in `handle_inject`'s reply -/
 def outputFields (e : Event) : List (String × Json) := valueToJsonFields e.data
 
+/-! ## a pipeline that transforms the values through the evaluator
+
+`stream Out = E .emit(a: f0 + 1, b: -f1, c: f2, d: f3)` on events whose `f0` is an `Int` and `f1` a
+`Float`: integer addition (no overflow on the domain), float negation (sign bit), two pass-throughs.
+The evaluator's arithmetic itself is M-EXPR's subject (C08–C11); here it only sits between the two
+conversions. -/
+
+/-- IEEE negation: flip the sign bit -/
+def negF64 (f : F64) : F64 := ⟨if f.bits ≥ 2 ^ 63 then f.bits - 2 ^ 63 else f.bits + 2 ^ 63⟩
+
+def lookupField (k : String) (data : List (String × Value)) : Value := (data.lookup k).getD .null
+
+/-- the emitted event's fields; `none` outside the domain (f0 not an Int whose successor fits i64, f1 not a Float) -/
+def transformFields (data : List (String × Value)) : Option (List (String × Value)) :=
+  match lookupField "f0" data, lookupField "f1" data with
+  | .int n, .float f =>
+    if fitsI64 (n + 1) then
+      some [("a", .int (n + 1)), ("b", .float (negF64 f)), ("c", lookupField "f2" data), ("d", lookupField "f3" data)]
+    else none
+  | _, _ => none
+
 end Varpulis.JsonValue
